@@ -194,10 +194,16 @@ Fixpoint aupd (m : list (option N)) (k : nat) (v : option N) : list (option N) :
   | _ :: t, O => v :: t
   | h :: t, S k' => h :: aupd t k' v
   end.
+Fixpoint anth (m : list (option N)) (k : nat) : option N :=
+  match m, k with
+  | [], _ => None
+  | h :: _, O => h
+  | _ :: t, S k' => anth t k'
+  end.
 Definition c_aload (m : list (option N)) (i : cres Z) : cres Z :=
   k <- i ;;
   if (0 <=? k) && (k <? Z.of_nat (length m)) then
-    match nth (Z.to_nat k) m None with
+    match anth m (Z.to_nat k) with
     | Some b => COk (Z.of_N b)
     | None => CUB UB_uninit_read
     end
